@@ -6,6 +6,9 @@ import (
 )
 
 func TestMain(m *testing.M) {
+	if os.Getenv("VERIF_CHILD") == "c08fault" {
+		os.Exit(c08FaultChild())
+	}
 	if os.Getenv("VERIF_CHILD") == "c14kill" {
 		os.Exit(c14KillChild())
 	}
